@@ -229,6 +229,66 @@ def _wrap(cls, name, out_path):
     setattr(cls, name, wrapper)
 
 
+TEXT_METHODS = {
+    # inserting markup: the readable text of the paragraph must stay what it was
+    "set_span": "insert", "set_link": "insert", "set_bookmark": "insert", "set_reference_mark": "insert", "set_reference_mark_end": "insert",
+    "insert_note": "insert", "insert_annotation": "insert", "insert_annotation_end": "insert", "insert_variable": "insert",
+    "insert_reference": "insert",
+    # removing markup keeps everything inside
+    "remove_spans": "strip", "remove_links": "strip",
+    # plain text appended (the constructor goes through it too)
+    "append_plain_text": "append",
+}
+
+
+def _wrap_text(cls, name, klass, out_path):
+    import sys
+
+    sys.path.insert(0, os.path.dirname(os.path.dirname(os.path.abspath(__file__))))
+    from harness import markup_lib as ml
+
+    orig = getattr(cls, name)
+
+    def wrapper(self, *args, **kwargs):
+        depth = getattr(_state, "tdepth", 0)
+        if depth > 0 or getattr(self, "tag", None) not in ("text:p", "text:h", "text:span"):
+            return orig(self, *args, **kwargs)
+        _state.tdepth = 1
+        ev = {"test": _current_test["id"], "method": name, "kind": "text", "class": klass, "tag": self.tag}
+        try:
+            try:
+                ev["pre"] = ml.project(self)
+                if klass == "append":
+                    text = args[0] if args else kwargs.get("text", "")
+                    if isinstance(text, bytes):
+                        text = text.decode("utf-8")
+                    if not isinstance(text, str):
+                        ev = None
+                    else:
+                        ev["text"] = [ord(c) for c in text]
+            except Exception:  # noqa: BLE001
+                ev = None
+            try:
+                return orig(self, *args, **kwargs)
+            except Exception as ex:
+                if ev is not None:
+                    ev["exc"] = type(ex).__name__
+                raise
+        finally:
+            _state.tdepth = 0
+            if ev is not None:
+                try:
+                    ev["post"] = ml.project(self)
+                    with open(out_path, "a") as f:
+                        f.write(json.dumps(ev) + "\n")
+                except Exception:  # noqa: BLE001, S110
+                    pass
+
+    wrapper.__name__ = name
+    wrapper.__doc__ = orig.__doc__
+    setattr(cls, name, wrapper)
+
+
 def pytest_configure(config):
     if os.environ.get("ODFDO_VERIF") != "1":
         return
@@ -240,6 +300,12 @@ def pytest_configure(config):
     for name in MUTATORS:
         if hasattr(Table, name):
             _wrap(Table, name, out_path)
+    if os.environ.get("ODFDO_VERIF_TEXT") == "1":
+        from odfdo.paragraph import Paragraph
+
+        for name, klass in TEXT_METHODS.items():
+            if hasattr(Paragraph, name):
+                _wrap_text(Paragraph, name, klass, out_path)
 
 
 def pytest_runtest_setup(item):
